@@ -569,6 +569,7 @@ struct Exporter {
       if (auto *MD = dyn_cast<CXXMethodDecl>(F)) {
         J.attribute("cls", plainName(MD->getParent()));
         J.attribute("rc", canonT(C.getRecordType(MD->getParent())));
+        J.attribute("rcd", declId(MD->getParent()));
         if (MD->isConst()) J.attribute("const", true);
         if (MD->isStatic()) J.attribute("static", true);
         if (MD->isVirtual()) J.attribute("virt", true);
